@@ -108,7 +108,7 @@ func (s *Server) handleProposeVersions(msg protocol.Message) error {
 			if err == nil && proposedVersionData != nil &&
 				proposedVersionData.Query() {
 				msgQueryReply := NewMsgQueryReply(s.config.ProtocolVersionMap)
-				if err := s.SendMessage(msgQueryReply); err != nil {
+				if err := s.SendMessageAndWait(msgQueryReply); err != nil {
 					return err
 				}
 				return errors.New(
@@ -141,7 +141,7 @@ func (s *Server) handleProposeVersions(msg protocol.Message) error {
 				supportedVersions,
 			},
 		)
-		if err := s.SendMessage(msgRefuse); err != nil {
+		if err := s.SendMessageAndWait(msgRefuse); err != nil {
 			return err
 		}
 		return errors.New("handshake failed: refused due to version mismatch")
@@ -166,7 +166,7 @@ func (s *Server) handleProposeVersions(msg protocol.Message) error {
 				),
 			},
 		)
-		if err := s.SendMessage(msgRefuse); err != nil {
+		if err := s.SendMessageAndWait(msgRefuse); err != nil {
 			return err
 		}
 		return errors.New("handshake failed: refused due to empty version data")
@@ -182,7 +182,7 @@ func (s *Server) handleProposeVersions(msg protocol.Message) error {
 				err.Error(),
 			},
 		)
-		if err := s.SendMessage(msgRefuse); err != nil {
+		if err := s.SendMessageAndWait(msgRefuse); err != nil {
 			return err
 		}
 		return fmt.Errorf(
@@ -200,7 +200,7 @@ func (s *Server) handleProposeVersions(msg protocol.Message) error {
 				),
 			},
 		)
-		if err := s.SendMessage(msgRefuse); err != nil {
+		if err := s.SendMessageAndWait(msgRefuse); err != nil {
 			return err
 		}
 		return errors.New("handshake failed: refused due to empty version map")
@@ -216,7 +216,7 @@ func (s *Server) handleProposeVersions(msg protocol.Message) error {
 				errMsg,
 			},
 		)
-		if err := s.SendMessage(msgRefuse); err != nil {
+		if err := s.SendMessageAndWait(msgRefuse); err != nil {
 			return err
 		}
 		return fmt.Errorf(
